@@ -283,7 +283,7 @@ def generate(run_index, seed, tier):
         ops.append(op)
         if cur2 is None:
             break
-        cur = cur2
+        cur = list(dict.fromkeys(cur2))      # an overwritten column keeps its place: no duplicate names
         if len([c for c in cur if c not in ("onset", "duration")]) == 0 and len(cur) < 2:
             break
     sc = {"ops": ops, "tables": tables, "stats": stats}
